@@ -442,9 +442,21 @@ static bool process_line(AsmState *state, const char *line, AsmResult *result) {
                 return false;
             }
 
-            /* .function name arity locals upvalues */
-            char name[256];
-            if (!parse_identifier(&p, name, sizeof(name))) {
+            /* .function name arity locals upvalues
+             * (the name is an identifier, or any string in quotes) */
+            size_t name_size = strlen(p) + 1;
+            char *name = malloc(name_size);
+            uint32_t name_len = 0;
+            bool have_name = false;
+            skip_whitespace(&p);
+            if (name && *p == '"') {
+                have_name = parse_quoted_string(&p, name, name_size, &name_len);
+            } else if (name && parse_identifier(&p, name, name_size)) {
+                have_name = true;
+                name_len = (uint32_t)strlen(name);
+            }
+            if (!have_name) {
+                free(name);
                 result->error = ASM_ERR_SYNTAX;
                 snprintf(result->message, sizeof(result->message),
                          "Expected function name after .function");
@@ -455,6 +467,7 @@ static bool process_line(AsmState *state, const char *line, AsmResult *result) {
             if (!parse_uint32(&p, &arity_val) ||
                 !parse_uint32(&p, &locals_val) ||
                 !parse_uint32(&p, &upvalues_val)) {
+                free(name);
                 result->error = ASM_ERR_SYNTAX;
                 snprintf(result->message, sizeof(result->message),
                          "Expected: .function name arity locals upvalues");
@@ -465,7 +478,8 @@ static bool process_line(AsmState *state, const char *line, AsmResult *result) {
             state->fn_code_size = 0;
 
             NvmFunctionEntry fn = {0};
-            fn.name_idx = nvm_add_string(state->mod, name, (uint32_t)strlen(name));
+            fn.name_idx = nvm_add_string(state->mod, name, name_len);
+            free(name);
             fn.arity = (uint16_t)arity_val;
             fn.local_count = (uint16_t)locals_val;
             fn.upvalue_count = (uint16_t)upvalues_val;
